@@ -150,6 +150,22 @@ whatever kind of answer (positive, NXDOMAIN, NODATA, SERVFAIL) it is. -/
 def replaceIfCurrent (samePartition : Bool) (cut : Deadline) (cutKey : Nat) : Option (Deadline × Nat) :=
   if samePartition then some (cut, cutKey) else none
 
+/-- `denialProofExpiry` (and the same bounds in `nxDomainCutCache.record`): how long the
+cache may SYNTHESIZE answers from a validated denial (RFC 8198 proof index, RFC 8020
+subtree cut). `maxTTL` is the configured ceiling (non-positive or above `hardMax` ↦
+`hardMax`), `bounds` the durations the proof's records contribute (TTLs, SOA minimum,
+signature lifetimes); the delegation cut bounds it like every other component.
+`none`: nothing is recorded (the doc belongs to `denialExpiry` below). -/
+def denialCeil (hardMax maxTTL : Int) : Int := if maxTTL ≤ 0 ∨ maxTTL > hardMax then hardMax else maxTTL
+
+def boundByCut (now m : Int) : Deadline → Int
+  | none => m
+  | some c => if c - now < m then c - now else m
+
+def denialExpiry (hardMax now maxTTL : Int) (cut : Deadline) (bounds : List Int) : Option Int :=
+  let ttl := bounds.foldl (fun acc b => if b < acc then b else acc) (boundByCut now (denialCeil hardMax maxTTL) cut)
+  if ttl ≤ 0 then none else some (now + ttl)
+
 /-! ### abstract event system of the descent
 
 Zones are names (labels root side first, `[]` is the root); an ancestor is a
